@@ -29,14 +29,20 @@ class Pt:
         return Pt(s * a for a in self.c)
 
 
-def pipeline(conv, U, P, W, args, npf=False):
+def asint(x):
+    """python int for integral values (control points / weights given as plain ints)"""
+    return int(x) if isinstance(x, F) and x.denominator == 1 else x
+
+
+def pipeline(conv, U, P, W, args, npf=False, ints=False):
     """returns an ordered dict name -> result of the real library (raw objects)"""
     out = {}
     mk = (lambda x: np.float64(float(x))) if npf else conv
+    mkp = (lambda x: asint(x)) if ints else mk
     Ui = [mk(x) for x in U]
     scalar = all(len(q) == 1 for q in P)
-    Pi = [mk(q[0]) if scalar else np.array([mk(x) for x in q], dtype=object if conv is ident else float) for q in P]
-    Wi = None if W is None else [mk(w) for w in W]
+    Pi = [mkp(q[0]) if scalar else np.array([mkp(x) for x in q], dtype=object if conv is ident else float) for q in P]
+    Wi = None if W is None else [mkp(w) for w in W]
     curve = Curve(Ui, Pi, Wi)
     us = [mk(u) for u in args["us"]]
     out["eval"] = [curve(u) for u in us]
@@ -168,7 +174,7 @@ def run_case(ctx, case):
     U, P, W, args = c["U"], [tuple(q) for q in c["P"]], c["W"], c["args"]
     rec.case(case, nontrivial=nontrivial_kv(U))
     rec.count("data", c.get("label", "?"))
-    r = impl(lambda: pipeline(ident, U, P, W, args))
+    r = impl(lambda: pipeline(ident, U, P, W, args, ints=(c.get("label") == "int")))
     if r[0] != "ok":
         rec.violation("pipeline raised on exact data", case, observed=r[1])
         return
